@@ -90,8 +90,12 @@ def c06_worker(args, scratch):
                 # the record the second hook (not attachable here) would write, so that the proxy serves the connection
                 k.map("audit_map", "insert", key=realbpf.audit_key(sport), value=realbpf.audit_value_hex(uid, pid, 1 if uid == 0 else 0, ip, port))
                 p.stdin.write(b"go\n"); p.stdin.flush()
-                lines = k.read_lines(p, timeout=4.0, until=("marker", "connect-failed", "no-response") if proto == "tcp" else ("peer", "connect-failed"))
+                lines = k.read_lines(p, timeout=30.0, until=("marker", "connect-failed", "no-response") if proto == "tcp" else ("peer", "connect-failed"))
                 peer = next((l.split()[1] for l in lines if l.startswith("peer ")), None)
+                if peer is None and not any(l.startswith(("connect-failed", "no-response", "marker")) for l in lines):
+                    res.setdefault("inconclusive", []).append("kernel section: the connector process reported nothing within 30 s; not a verdict")
+                    p.kill()
+                    break
                 res["evaluations"] += 1
                 expect_redirect = proto == "tcp" and dest in listed and listed.get(dest, False)
                 wit = {"uid": uid, "gid": gid, "class": cls, "dest": [ip, port, proto], "policy": dict(listed), "connector_output": lines, "pid": pid, "source_port": sport}
@@ -102,15 +106,27 @@ def c06_worker(args, scratch):
                     res["violations"].append(["kernel:unlisted-connect-was-rewritten", wit])
                 # pending record written by the first hook (the real program, in the kernel): key = tgid<<32|tid
                 key = realbpf.hexwords(pid, pid)
-                got = k.map("local_map", "get", key=key)["value"]
-                if expect_redirect:
-                    want = struct.pack("<III", uid, pid, 1 if uid == 0 else 0).hex() + socket.inet_aton(ip).hex() + struct.pack(">H", port).hex() + "0000" + struct.pack("<I", 6).hex()
-                    if got != want:
-                        cls2 = "uid-taken-from-gid" if got and got[:8] == struct.pack("<I", gid).hex() and uid != gid else "fields"
-                        res["violations"].append(["kernel:pending-record-wrong:%s" % cls2, dict(wit, got=got, want=want)])
+                got_r = k.map("local_map", "get", key=key)
+                if "value" not in got_r:
+                    # the hand-off map between the two hooks is internal to the kernel program; a layout this monitor cannot read is
+                    # no verdict (the user-space model, compiled from the same source, judges the final records)
+                    cnt["pending_record_not_readable"] = cnt.get("pending_record_not_readable", 0) + 1
+                    got_r = {"value": "unreadable"}
+                got = got_r["value"]
+                if expect_redirect and got != "unreadable":
+                    # layout-agnostic: the words the second hook needs (uid, pid, destination address and port) are in the entry
+                    wordsof = lambda h: [h[i:i + 8] for i in range(0, len(h), 8)]
+                    halves = lambda h: [h[i:i + 4] for i in range(0, len(h), 4)]
+                    want = {"uid": struct.pack("<I", uid).hex(), "pid": struct.pack("<I", pid).hex(), "ip": socket.inet_aton(ip).hex()}
+                    missing = [f for f, wv in want.items() if got is None or wv not in wordsof(got)]
+                    if got is None or struct.pack(">H", port).hex() not in halves(got):
+                        missing.append("port")
+                    if missing:
+                        cls2 = "uid-taken-from-gid" if got and "uid" in missing and uid != gid and struct.pack("<I", gid).hex() in wordsof(got) else "fields"
+                        res["violations"].append(["kernel:pending-record-wrong:%s" % cls2, dict(wit, got=got, want=want, missing=missing)])
                     res["nontrivial"].append(common.sha(["kernel", cls, dest, round_ > 0]))
                     k.map("local_map", "delete", key=key)
-                elif got is not None:
+                elif not expect_redirect and got is not None and got != "unreadable":
                     res["violations"].append(["kernel:record-for-connect-that-must-not-have-one", dict(wit, got=got)])
                 try:
                     p.stdin.write(b"bye\n"); p.stdin.flush(); p.wait(2)
@@ -153,7 +169,7 @@ def c07_worker(args, scratch):
         me = os.getpid()
 
         def open_conn(record=True, src_port=0):
-            c = rawhttp.Conn("169.254.169.254", 80, src_port=src_port, src_ip="0.0.0.0", connect=False, timeout=10)
+            c = rawhttp.Conn("169.254.169.254", 80, src_port=src_port, src_ip="0.0.0.0", connect=False, timeout=60)
             if record:
                 k.map("audit_map", "insert", key=realbpf.audit_key(c.src_port), value=realbpf.audit_value_hex(0, me, 1, "169.254.169.254", 80))
             c.connect()     # the kernel's connect4 program diverts it to 127.0.0.1:3080
@@ -169,7 +185,7 @@ def c07_worker(args, scratch):
 
             def client(i):
                 try:
-                    c = rawhttp.Conn("169.254.169.254", 80, src_ip="0.0.0.0", connect=False, timeout=10)
+                    c = rawhttp.Conn("169.254.169.254", 80, src_ip="0.0.0.0", connect=False, timeout=60)
                     k.map("audit_map", "insert", key=realbpf.audit_key(c.src_port), value=realbpf.audit_value_hex(0, me, 1, "169.254.169.254", 80))
                     ports[i] = c.src_port
                     barrier.wait(20)
@@ -179,7 +195,12 @@ def c07_worker(args, scratch):
                         viol("kernel:attributed-connection-not-served", {"status": st, "port": c.src_port})
                     c.close(abort=True)
                 except Exception as e:  # noqa
-                    viol("kernel:client-error", {"err": repr(e)})
+                    if common.is_timeout(e) or isinstance(e, threading.BrokenBarrierError):
+                        with lock:      # the client's own watchdog on a loaded machine: no verdict
+                            if not res.get("inconclusive"):
+                                res.setdefault("inconclusive", []).append("kernel section: client socket watchdog (60 s) or start barrier fired; not a verdict")
+                    else:
+                        viol("kernel:client-error", {"err": repr(e)})
             ts = [threading.Thread(target=client, args=(i,)) for i in range(nconn)]
             for t in ts: t.start()
             for t in ts: t.join()
@@ -199,7 +220,7 @@ def c07_worker(args, scratch):
                     vid = "r%d-reuse%d" % (rnd, i)
                     st = exchange(c, vid)
                     c.close(abort=True)
-                    if st != 421 or any((u.header("x-vf-id") or b"").decode() == vid for u in k.mocks["imds"].snapshot()):
+                    if not (400 <= st < 600) or any((u.header("x-vf-id") or b"").decode() == vid for u in k.mocks["imds"].snapshot()):
                         bad.append((pnum, st))
                 except OSError:
                     cnt["port_reuse_bind_failed"] = cnt.get("port_reuse_bind_failed", 0) + 1
@@ -221,7 +242,7 @@ def c07_worker(args, scratch):
                 c2.close(abort=True)
                 with lock:
                     res["evaluations"] += 1
-                if st1 == 200 and (st2 != 421 or any((u.header("x-vf-id") or b"").decode() == vid for u in k.mocks["imds"].snapshot())):
+                if st1 == 200 and (not (400 <= st2 < 600) or any((u.header("x-vf-id") or b"").decode() == vid for u in k.mocks["imds"].snapshot())):
                     bad.append((pnum, st2))
             except OSError:
                 cnt["port_reuse_bind_failed"] = cnt.get("port_reuse_bind_failed", 0) + 1
